@@ -1,5 +1,6 @@
 import QR.Proofs.Raster
 import QR.Proofs.SourceTie
+import QR.Proofs.Pinned
 /-
 C12 - raster geometry (image/base.py, pure.py, pil.py).  Both raster back ends produce a square of
 `(modules + 2*border) * box_size` pixels in which pixel (x, y) has the fill colour iff module
@@ -84,5 +85,9 @@ example : let M : Mods := [[true, false], [false, true]]
 /-- `BaseImage.pixel_box` as it stands in the source is the model's `pixelBox` -/
 theorem C12_source_pixel_box (border box row col : Nat) :
     Gen.Code.pixel_box border box row col = pixelBox border box row col := QR.SourceTie.pixelBox_eq border box row col
+
+/-- the Python functions this property's model mirrors have, in /repo's current working tree, exactly the normalised
+    ASTs the model was written and validated against (fingerprints regenerated by T1 on every run) -/
+theorem C12_source_fingerprints : QR.Gen.fp_C12 = QR.Pinned.fp_C12 := by decide
 
 end QR.Props
